@@ -200,7 +200,7 @@ fn parse_args() -> Result<Opt, pico_args::Error> {
         std::process::exit(1);
     }
 
-    let args = Opt {
+    let mut args = Opt {
         complement: pargs.contains(["-m", "--complement"]),
         only_delimited: pargs.contains(["-s", "--only-delimited"]),
         greedy_delimiter,
@@ -233,6 +233,11 @@ fn parse_args() -> Result<Opt, pico_args::Error> {
             .map(|x: String| x.into()),
         regex_bag,
     };
+
+    if args.bounds_type == BoundsType::Lines {
+        // lines are delimited by the EOL in use (NUL with -z)
+        args.delimiter = vec![args.eol.into()];
+    }
 
     let remaining = pargs.finish();
 
